@@ -80,12 +80,16 @@ type Exec struct {
 	// Ever holds every (channel, ts) -> value ever handed to Write (latest generation).
 	Ever     map[uint32]map[string]Stamp // channel -> value bytes -> (timestamp, generation)
 	Sessions map[int]*SessionLog
+	// Tomb holds, per channel, the values of every sample ever handed to Write whose
+	// timestamp lay in the range of a DeleteTimeRange that returned nil (the sample was
+	// removed by a completed delete, or was never committed and can no longer appear).
+	Tomb map[uint32]map[string]bool
 	// Bounds collects the client-visible layout boundaries (first timestamp of every
 	// write and last timestamp + 1, i.e. every possible commit end / domain edge); reads
 	// are aimed at them.
-	Bounds []int64
-	writers  map[int]*wstate
-	specs    map[uint32]ChanSpec
+	Bounds  []int64
+	writers map[int]*wstate
+	specs   map[uint32]ChanSpec
 
 	// Observations
 	ReadsCompared   int
@@ -123,7 +127,7 @@ type Exec struct {
 
 func NewExec(fs xfs.FS, s *Script) *Exec {
 	e := &Exec{Ctx: context.Background(), FS: fs, Dir: "db", Script: s, Model: NewModel(), Durable: NewModel(),
-		Ever: map[uint32]map[string]Stamp{}, Sessions: map[int]*SessionLog{},
+		Ever: map[uint32]map[string]Stamp{}, Sessions: map[int]*SessionLog{}, Tomb: map[uint32]map[string]bool{},
 		writers: map[int]*wstate{}, specs: map[uint32]ChanSpec{}}
 	return e
 }
@@ -491,6 +495,14 @@ func (e *Exec) doDelete(i int, op Op) bool {
 	for _, k := range op.Chans {
 		e.DeletedSamples += e.Model.Delete(k, op.A, op.B)
 		e.Durable.Delete(k, op.A, op.B)
+		for v, st := range e.Ever[k] {
+			if st.TS >= op.A && st.TS < op.B {
+				if e.Tomb[k] == nil {
+					e.Tomb[k] = map[string]bool{}
+				}
+				e.Tomb[k][v] = true
+			}
+		}
 	}
 	return true
 }
